@@ -27,8 +27,14 @@ Conventions the oracles are built from
 * FieldZeroPadder: end padding keeps index i; central padding keeps the first n//2+1 entries at the start and the
   last n//2 entries at the end (for even n the Nyquist entry appears twice: "currently not split up").
 * MaskOperator: the unflagged pixels (flag converts to False) in C order.
+
+Genuine defects found with this module (fix diffs in /verif/fixes/C35_*.diff, regression recipes in corpus/C35):
+  - SamplingCartesianGridLOS with start and end both of the documented shape (n_dim,) returns n_dim meaningless
+    numbers (vmap over the coordinate axis) instead of the one line integral;
+  - SamplingCartesianGridLOS declares target shape end.shape = (n_points, n_dim) but returns (n_points,);
+  - Nufft.times, Gridder.times, VariablePositionNufft and ShiftedPositionFFT crash inside ducc ("data type mismatch" /
+    "not yet supported") for real-valued (float64) input fields.
 """
-import itertools
 from fractions import Fraction
 
 import numpy as np
@@ -68,6 +74,12 @@ ASSUMPTIONS = [
     "NUFFT accuracy: l2 error <= 10 eps sqrt(#outputs) ||input||_1 (value), with the analogous first-order bound for "
     "the Jacobian of VariablePositionNufft",
     "Gridder only on 2-D grids with even pixel numbers (constructor requirement)",
+    "point data of Nufft/Gridder and grids of VariablePositionNufft/ShiftedPositionFFT are complex in 4 of 5 cases and "
+    "real-valued (float64 fields, a subset of the complex numbers; the docstrings do not restrict the dtype and "
+    "Nufft.adjoint_times converts explicitly) in 1 of 5; the Jacobian adjoint is compared for complex grids only",
+    "SamplingCartesianGridLOS: start and end each of shape (n_points, n_dim) or (n_dim,) as documented, including both "
+    "(n_dim,) = one line of sight (result must then have exactly one entry); the declared Model.target shape must "
+    "equal the shape of the returned array",
     "RegriddingOperator: no axis of length 1 in the domain (recorded finding C02 regrid_len1)",
     "MatrixProductOperator is not part of this property",
     "test fields are dyadic numbers derived deterministically from an integer seed stored in the recipe",
@@ -140,10 +152,15 @@ def _los_points(draw, shape, nlos):
     """integer coordinates in units of dist/16; pixel i covers [16 i - 8, 16 i + 8]"""
     S_, E_, kinds = [], [], []
     for _ in range(nlos):
-        kind = draw(st.sampled_from(["inside", "inside", "cross", "cross", "long"] + (["corner"] if len(shape) > 1 else [])))
-        pad = {"inside": 0, "cross": 40, "long": 200, "corner": 24}[kind]
+        kind = draw(st.sampled_from(["inside", "inside", "cross", "cross", "long", "fine"] +
+                                    (["corner"] if len(shape) > 1 else [])))
+        pad = {"inside": 0, "cross": 40, "long": 200, "corner": 24, "fine": 8}[kind]
         s = [draw(st.integers(-8 - pad, 16 * n - 8 + pad)) for n in shape]
         e = [draw(st.integers(-8 - pad, 16 * n - 8 + pad)) for n in shape]
+        if kind == "fine":
+            # generic positions: resolution 2**-12 pixel instead of 1/16 pixel
+            s = [v + draw(st.integers(0, 255)) / 256.0 for v in s]
+            e = [v + draw(st.integers(0, 255)) / 256.0 for v in e]
         if kind == "corner":
             # the mid point of the segment is a vertex of the pixel lattice (all cell boundaries meet there)
             c = [16 * draw(st.integers(0, n)) - 8 for n in shape]
@@ -227,7 +244,7 @@ def los_check(rec):
             classes.append("axis_parallel")
         if _hits_corner(rec["s"][i], rec["e"][i], shape):
             classes.append("through_pixel_corner")
-    return dict(nontrivial=bool(np.any(npix >= 3)) and len(shape) >= 1, classes=sorted(set(classes)))
+    return dict(nontrivial=bool(np.any(npix >= 3)), classes=sorted(set(classes)))
 
 
 def _hits_corner(s, e, shape):
@@ -240,12 +257,12 @@ def _hits_corner(s, e, shape):
         if s[a] == e[a]:
             continue
         for b in range(0, shape[a] + 1):
-            t = Fraction(16 * b - 8 - s[a], e[a] - s[a])
+            t = (Fraction(16 * b - 8) - Fraction(s[a])) / (Fraction(e[a]) - Fraction(s[a]))
             if 0 < t < 1:
                 ts.setdefault(t, set()).add(a)
     for t, axes in ts.items():
         if len(axes) >= 2:
-            p = [s[a] + t * (e[a] - s[a]) for a in range(nd)]
+            p = [Fraction(s[a]) + t * (Fraction(e[a]) - Fraction(s[a])) for a in range(nd)]
             if all(-8 <= p[a] <= 16 * shape[a] - 8 for a in range(nd)):
                 return True
     return False
@@ -437,7 +454,7 @@ def nufft_recipes(draw, tier):
         else:                   # FFT grid point m/(n d), m may lie outside the first period
             pos.append(["grid"] + [draw(st.integers(-n, 2 * n)) for n in shape])
     return {"which": which, "shape": shape, "dist": dist, "pos": pos, "eps": draw(EPS),
-            "harmonic": draw(st.booleans()), "seed": draw(SEED)}
+            "harmonic": draw(st.booleans()), "real_points": draw(st.integers(0, 4)) == 0, "seed": draw(SEED)}
 
 
 def _positions(rec):
@@ -482,7 +499,7 @@ def nufft_check(rec):
     require(op.target == tgt, "nufft_declared_target", str(op.target))
     E, _ = _phase_tensor(shape, dist, pos, +1)
     rng = np.random.default_rng(rec["seed"])
-    x = dy(rng, K, cplx=True)
+    x = dy(rng, K, cplx=not rec.get("real_points", False))      # real-valued point data are complex data too
     r = out_array(op(field_of(dom, x)), tgt, "nufft_times")
     require(not np.iscomplexobj(r), "nufft_times_real", f"dtype {r.dtype}")
     ref = np.real(np.tensordot(x, E, axes=(0, 0)))
@@ -499,6 +516,7 @@ def nufft_check(rec):
         classes.append("pos_far")
     if any(n % 2 for n in shape):
         classes.append("odd_axis")
+    classes.append("points_real_dtype" if rec.get("real_points", False) else "points_complex_dtype")
     return dict(nontrivial="off" in kinds and (len(shape) >= 2 or K >= 2), classes=classes)
 
 
@@ -563,7 +581,7 @@ def varpos_recipes(draw, tier):
     dist = [draw(DIST) for _ in shape]
     batch = draw(st.sampled_from([None, None, 1, 2, 3]))
     rec = {"what": what, "shape": shape, "dist": dist, "batch": batch, "eps": draw(st.sampled_from([1e-4, 1e-8, 2e-10])),
-           "seed": draw(SEED)}
+           "real_grid": draw(st.integers(0, 4)) == 0, "seed": draw(SEED)}
     if what == "varpos":
         npts = draw(st.integers(1, 5))
         rec["coord"] = [[draw(st.integers(-64, 64)) / 16.0 for _ in shape] for _ in range(npts)]
@@ -595,7 +613,8 @@ def varpos_check(rec):
     require(op.domain["grid"] == gdom and op.domain["coord"] == cdom, "varpos_declared_domain", str(op.domain))
     require(op.target == tgt, "varpos_declared_target", str(op.target))
     rng = np.random.default_rng(rec["seed"])
-    g = dy(rng, gdom.shape, cplx=True)
+    real_grid = rec.get("real_grid", False)
+    g = dy(rng, gdom.shape, cplx=not real_grid)
     inp = ift.MultiField.from_dict({"grid": field_of(gdom, g), "coord": field_of(cdom, coord)}, op.domain)
     E, grids = _phase_tensor(shape, dist, coord, -1)
     gb = g[None] if b is None else g
@@ -619,7 +638,7 @@ def varpos_check(rec):
         for i in range(nb):
             D[i, :, a] = _bsum(E, gb[i] * fac, nd)
         dscale[a] = float(np.max(np.sum(np.abs(gb * fac[None]).reshape(nb, -1), axis=1)))
-    dg = dy(rng, gdom.shape, cplx=True)
+    dg = dy(rng, gdom.shape, cplx=not real_grid)
     dc = dy(rng, (K, nd))
     tang = ift.MultiField.from_dict({"grid": field_of(gdom, dg), "coord": field_of(cdom, dc)}, op.domain)
     dgb = dg[None] if b is None else dg
@@ -627,6 +646,14 @@ def varpos_check(rec):
     jsc = float(np.max(np.sum(np.abs(dgb.reshape(nb, -1)), axis=1))) + float(np.sum(dscale * np.max(np.abs(dc), axis=0)))
     jt = out_array(lin.jac(tang), tgt, "varpos_jacobian")
     l2close(jt, unb(refj), "varpos_jacobian_times", 10 * eps * np.sqrt(K * nb) * max(jsc, 1e-300))
+    classes = ["varpos", f"ndim_{nd}", "batch_none" if b is None else f"batch_{b}", f"eps_{eps:g}",
+               "grid_real_dtype" if real_grid else "grid_complex_dtype"]
+    if any(n % 2 for n in shape):
+        classes.append("odd_axis")
+    if real_grid:
+        # (the adjoint Jacobian is compared for complex grids only: for a real-valued grid variable the
+        # real-linear adjoint is the real part, which the documentation does not spell out)
+        return dict(nontrivial=nd >= 2 or K >= 2, classes=classes)
     y = dy(rng, tgt.shape, cplx=True)
     yb = y[None] if b is None else y
     ja = lin.jac.adjoint_times(field_of(tgt, y))
@@ -638,9 +665,6 @@ def varpos_check(rec):
             10 * eps * np.sqrt(g.size) * y1)
     l2close(np.asarray(ja["coord"].asnumpy()), refc, "varpos_jacobian_adjoint_coord",
             10 * eps * np.sqrt(K * nd) * y1 * max(float(np.max(dscale)), 1e-300))
-    classes = ["varpos", f"ndim_{nd}", "batch_none" if b is None else f"batch_{b}", f"eps_{eps:g}"]
-    if any(n % 2 for n in shape):
-        classes.append("odd_axis")
     return dict(nontrivial=nd >= 2 or K >= 2, classes=classes)
 
 
@@ -658,7 +682,8 @@ def shifted_check(rec):
     require(op.domain["grid"] == gdom and op.domain["delta_coord"] == ddom, "shifted_declared_domain", str(op.domain))
     require(op.target == tgt, "shifted_declared_target", str(op.target))
     rng = np.random.default_rng(rec["seed"])
-    g = dy(rng, gdom.shape, cplx=True)
+    real_grid = rec.get("real_grid", False)
+    g = dy(rng, gdom.shape, cplx=not real_grid)
     how = rec["delta"]
     if how == "zero":
         delta = np.zeros(ddom.shape)
@@ -692,7 +717,8 @@ def shifted_check(rec):
             mm = tuple(int(v) for v in (np.array(m) + delta[m].astype(int)) % narr)
             exp[(slice(None),) + m] = full[(slice(None),) + mm]
         l2close(res, exp[0] if b is None else exp, "shifted_integer_delta_is_fft_neighbour", bound)
-    classes = ["shifted", "delta_" + how, f"ndim_{nd}", "batch_none" if b is None else f"batch_{b}", f"eps_{eps:g}"]
+    classes = ["shifted", "delta_" + how, f"ndim_{nd}", "batch_none" if b is None else f"batch_{b}", f"eps_{eps:g}",
+               "grid_real_dtype" if real_grid else "grid_complex_dtype"]
     return dict(nontrivial=N >= 3 and how != "zero", classes=classes)
 
 
